@@ -126,14 +126,16 @@ def decoder():
             while True:
                 byte = yield
                 res.extend(byte)
-                if res[-1] == ord("#") and res[-2] != ord("'"):
+                # A '#' inside the payload is escaped (as } and 0x03), so
+                # every '#' terminates the payload:
+                if res[-1] == ord("#"):
                     byte = yield
                     res.extend(byte)
                     byte = yield
                     res.extend(byte)
                     byte = yield res.decode("ascii")
                     break
-        elif byte == b"+":
+        elif byte in (b"+", b"-"):
             byte = yield byte.decode("ascii")
         else:
             if not isinstance(byte, bytes):
